@@ -163,6 +163,7 @@ func propC01(w *World, r *Report) {
 	checkRingMove(w, r, "O3")
 	checkRingResetAndOldest(w, r, "O2")
 	checkMarkOnlyAfterStop(w, r, run, "O2")
+	checkRingUsage(w, r, run, "O2")
 	if len(roles.Problems) > 0 {
 		r.Note("role resolution notes: %s", strings.Join(roles.Problems, "; "))
 	}
@@ -186,6 +187,29 @@ func checkMarkOnlyAfterStop(w *World, r *Report, run *tsRun, rule string) {
 		}
 	}
 	r.Check(len(evs) >= 1, "G4", "SetAsOldest call site exists", "-", fmt.Sprint(len(evs)))
+}
+
+// checkRingUsage: the processor drives its pre-trigger ring only through Current / Move / SetAsOldest / GetHistory /
+// CopyRecent. In particular it never rewinds it (Reset): that would drop buffered pre-trigger frames, make the
+// "previous slot" served to snapshot requests a stale or never-written one, and break the ring invariant the
+// history slicing relies on.
+func checkRingUsage(w *World, r *Report, run *tsRun, rule string) {
+	allowed := map[string]bool{"Current": true, "Move": true, "SetAsOldest": true, "GetHistory": true, "CopyRecent": true}
+	n := 0
+	for _, ev := range run.sortedEvents() {
+		if !strings.HasPrefix(ev.Kind, "ring:") {
+			continue
+		}
+		n++
+		m := strings.TrimPrefix(ev.Kind, "ring:")
+		construct := "pre-trigger ring method " + m + " called from " + ev.Instr.Parent().Name()
+		if allowed[m] {
+			r.Pass(rule, construct, w.InstrPos(ev.Instr), "advances only by completed frames / marks / reads")
+		} else {
+			r.Fail(rule, construct, w.InstrPos(ev.Instr), "the processor calls "+m+" on its pre-trigger ring: the ring position no longer advances only by completed frames (buffered preview frames are dropped, snapshot requests can be served a stale or never-written slot, the history slicing invariant breaks)", ev.Ctxs[0].Trace)
+		}
+	}
+	r.Check(n >= 4, "G4", "ring calls by the processor observed", "-", fmt.Sprint(n))
 }
 
 // checkPreTriggerLoop: O3 / P2 — shape of the loop that writes the history to the motion sink.
@@ -292,6 +316,7 @@ func propC02(w *World, r *Report) {
 	checkRingMove(w, r, "P2")
 	checkRingResetAndOldest(w, r, "P4")
 	checkMarkOnlyAfterStop(w, r, runs.fault, "P4")
+	checkRingUsage(w, r, runs.fault, "P4")
 	// P3
 	exits := exitCtxs(runs.nofault)
 	n := 0
